@@ -26,7 +26,7 @@ CONSTANTS
   SecConvOf(_, _),   \* (datatype, section value) -> [ok, v]
   ResLines(_),       \* resource id -> its lines (sequence of character sequences)
   Resolve(_, _),     \* (including resource id, %include argument) -> resource id or "" (cannot be opened)
-  Package(_)         \* %import argument -> [ok, types, impl]: the component of that package (types it defines,
+  Package(_)         \* %import argument -> [ok, types, impl, imports]: the component of that package (types it defines,
                      \* implementers it adds to abstract types of the schema); ok = FALSE if not importable
 
 NoKey == "~none~"       \* what a '*' / '+' section slot has in place of a key ('~' never occurs in a token)
@@ -472,23 +472,45 @@ StepInclude(S, m, c) ==
                       Err("config", 0, "", "", "recursive include"))     \* a resource that (transitively) includes itself
        ELSE [m EXCEPT !.ps = Append(@, Frame(rid)), !.ev = Append(@, <<"open", rid>>)]
 
+(* ConfigLoader.importSchemaComponent + the component parser: a component  *)
+(* is registered before it is read, so asking for it again - also from     *)
+(* inside a component it imports itself - does nothing; the components it  *)
+(* imports are read first, then its own types are merged.  The component   *)
+(* resource is open while all that happens and closed whatever comes of it.*)
+(* A refusal inside the component(s) being read: the load is over, the     *)
+(* component resources are closed innermost first on the way out           *)
+(* (ImportPkg), the configuration resources after them (StepImport).       *)
+Refuse(m, e) == [m EXCEPT !.out = e]
+RECURSIVE ImportPkg(_, _)
+RECURSIVE ImportSeq(_, _, _)
+ImportSeq(m, names, i) == IF i > Len(names) \/ m.out.r # "run" THEN m
+                          ELSE ImportSeq(ImportPkg(m, names[i]), names, i + 1)
+ImportPkg(m, name) ==
+  LET p == Package(name) IN
+  IF ~p.ok THEN Refuse(m, Err("config", 0, "", "", "cannot import"))
+  ELSE IF name \in m.comps THEN m
+  ELSE LET m1 == [m EXCEPT !.comps = @ \cup {name}, !.ev = Append(@, <<"open", "pkg:" \o name>>)]
+           m2 == ImportSeq(m1, p.imports, 1)
+           Closed(x) == [x EXCEPT !.ev = Append(@, <<"close", "pkg:" \o name>>)]
+       IN  IF m2.out.r # "run" THEN Closed(m2)
+           ELSE IF \E a \in DOMAIN p.impl \ {"~none~"} : a \notin DOMAIN m2.vocab \/ ~m2.vocab[a].abstract
+                THEN Closed(Refuse(m2, Err("config", 0, "", "", "implements names no abstract type of this schema")))
+           ELSE IF \E n \in DOMAIN p.types : n \in DOMAIN m2.vocab
+                THEN Closed(Refuse(m2, Err("config", 0, "", "", "type name cannot be redefined")))
+           ELSE LET merged == [n \in DOMAIN m2.vocab \cup DOMAIN p.types |->
+                                 IF n \in DOMAIN p.types THEN p.types[n]
+                                 ELSE IF m2.vocab[n].abstract /\ n \in DOMAIN p.impl
+                                      THEN [m2.vocab[n] EXCEPT !.impl = @ \cup p.impl[n]]
+                                      ELSE m2.vocab[n]]
+                IN  Closed([m2 EXCEPT !.vocab = merged])
+
 StepImport(S, m, c) ==
   LET x == Expand(m, c.arg) IN
   IF x.r # "ok" THEN Fail(m, SubstErr(m, x))
-  ELSE LET p == Package(x.v) IN
-       IF ~p.ok THEN Fail(m, Err("config", 0, "", "", "cannot import"))
-       ELSE IF x.v \in m.comps THEN m
-       ELSE IF \E a \in DOMAIN p.impl \ {"~none~"} : a \notin DOMAIN m.vocab \/ ~m.vocab[a].abstract
-            THEN Fail(m, Err("config", 0, "", "", "implements names no abstract type of this schema"))
-       ELSE IF \E n \in DOMAIN p.types : n \in DOMAIN m.vocab
-            THEN Fail(m, Err("config", 0, "", "", "type name cannot be redefined"))
-       ELSE LET merged == [n \in DOMAIN m.vocab \cup DOMAIN p.types |->
-                             IF n \in DOMAIN p.types THEN p.types[n]
-                             ELSE IF m.vocab[n].abstract /\ n \in DOMAIN p.impl
-                                  THEN [m.vocab[n] EXCEPT !.impl = @ \cup p.impl[n]]
-                                  ELSE m.vocab[n]]
-            IN  [m EXCEPT !.vocab = merged, !.comps = @ \cup {x.v},
-                          !.ev = @ \o <<<<"open", "pkg:" \o x.v>>, <<"close", "pkg:" \o x.v>>>>]
+  ELSE LET r == ImportPkg(m, x.v) IN
+       IF r.out.r = "err"
+       THEN [r EXCEPT !.ev = @ \o [i \in 1..Len(m.ps) |-> <<"close", m.ps[Len(m.ps) + 1 - i].rid>>]]
+       ELSE r
 
 (* One classified line of the current resource.                            *)
 StepClass(S, m0, c) ==
